@@ -38,10 +38,32 @@ def run(ctx):
                 shapes_nw.append(tuple(c["NW"]))
 
     def clear():
-        mc._upper_triangle_indices.cache_clear()
-        uv._compressed_index.cache_clear()
-        uv.locations_compressed.cache_clear()
-        uv.locations_index_slices.cache_clear()
+        # every memoised helper of the two modules, whatever it is called
+        for mod in (mc, uv):
+            for obj in list(vars(mod).values()):
+                if callable(getattr(obj, "cache_clear", None)):
+                    obj.cache_clear()
+
+    def impl_triu_of(n):
+        """row-major order of the compressed form, observed through the PUBLIC compress_matrix."""
+        if n == 0:
+            return []
+        code = np.arange(n * n, dtype=float).reshape(n, n)
+        v = mc.compress_matrix(code)
+        return [(int(x) // n, int(x) % n) for x in v]
+
+    def impl_full_size(m, n_expected):
+        f = getattr(mc, "_full_matrix_size", None)
+        if f is not None:
+            return int(f(m))
+        return int(mc.reinflate_matrix(np.zeros(m)).shape[0]) if m > 0 else 0
+
+    cidx_fn = getattr(uv, "_compressed_index", None)
+    uvl_fn = getattr(uv, "_unique_variable_locations", None)
+    bsc_fn = getattr(uv, "_block_start_coordinates", None)
+    for name, f in (("_compressed_index", cidx_fn), ("_unique_variable_locations", uvl_fn), ("_block_start_coordinates", bsc_fn)):
+        if f is None:
+            ctx.notes.append(f"private helper unique_values.{name} not found: observed through the public list functions only")
 
     # ------------------------------------------------------------ compression maps
     model_n_cidx = 40 if ctx.quick() else 70     # all (r,c) through the model up to this n
@@ -64,8 +86,7 @@ def run(ctx):
             clear()
         for n in shapes_n:
             bad = None
-            rows, cols = mc._upper_triangle_indices(n)
-            impl_triu = list(zip([int(x) for x in rows], [int(x) for x in cols]))
+            impl_triu = impl_triu_of(n)
             want = model_out[("triu", n)]
             got = show_list(impl_triu, lambda p: f"{p[0]}:{p[1]}")
             if got != want:
@@ -77,7 +98,7 @@ def run(ctx):
                 ctx.violation("impl-violation", "upper-triangle index list is not the row-major upper triangle",
                               {"n": n}, {"site": "triu"})
             m = n * (n + 1) // 2
-            fs = mc._full_matrix_size(m)
+            fs = impl_full_size(m, n)
             if str(int(fs)) != model_out[("fullsize", n)]:
                 ctx.violation("correspondence-break", "fullSize vs _full_matrix_size", {"n": n})
             if int(fs) != n:
@@ -85,10 +106,10 @@ def run(ctx):
                               {"n": n}, {"site": "fullsize"})
             # closed-form index == rank, for every (r, c)
             rank = {p: k for k, p in enumerate(impl_triu)}
-            for r in range(n):
+            for r in (range(n) if cidx_fn is not None else ()):
                 for c in range(n):
                     try:
-                        k = uv._compressed_index(r, c, n)
+                        k = cidx_fn(r, c, n)
                         s = str(int(k))
                         if not isinstance(k, int):
                             s = "nonint"
@@ -164,8 +185,8 @@ def run(ctx):
             for b in range(W):
                 for r in range(N):
                     for c in range(N):
-                        pos = uv._unique_variable_locations(b, r, c, N, W)
                         (rows, cols) = uv.locations_index_slices(b, r, c, N, W)
+                        pos = uvl_fn(b, r, c, N, W) if uvl_fn is not None else list(zip(rows, cols))
                         in_upper = (b > 0) or (c >= r)
                         if in_upper:
                             comp = uv.locations_compressed(b, r, c, N, W)
@@ -220,7 +241,10 @@ def run(ctx):
                               {"NW": [N, W]}, {"site": "cover"})
             # argument checks
             try:
-                uv._block_start_coordinates(W, N, W)
+                if bsc_fn is not None:
+                    bsc_fn(W, N, W)
+                else:
+                    uv.locations_index_slices(W, 0, 0, N, W)
                 s = "noerr"
             except IndexError:
                 s = "err"
@@ -231,7 +255,10 @@ def run(ctx):
                          sample={"N": N, "W": W, "classes": len(cls)} if (N, W) in ((2, 3), (10, 14)) else None)
                 ctx.count("class_shapes")
     try:
-        uv._block_start_coordinates(0, 0, 3)
+        if bsc_fn is not None:
+            bsc_fn(0, 0, 3)
+        else:
+            uv.locations_index_slices(0, 0, 0, 0, 3)
         s = "noerr"
     except ValueError:
         s = "err"
